@@ -48,6 +48,7 @@ def layout_defs(L):
 def mk(prefix, L, op, extra, sfx, checks='func', leak=False, timeout=600, safety_owner='C07'):
     d = layout_defs(L)
     d['VF_OP'] = OPS[op]
+    d['VF_ALLOC_MAX'] = D + (L['M'] - 1) * E
     d.update(extra or {})
     M = L['M']
     return Case('%s.ha.%s.%s%s' % (prefix, op, L['id'], sfx), 'hasharr.c', d, unwind=max(M * E + 6, 30), unwindset={'find_avail.0': M + 1, 'remove_data.0': M + 1, 'put_data.0': M + 2, 'get_idx.0': M + 1, 'qhasharr_remove_by_idx.0': M + 1, 'get_data.0': M + 1, 'get_data.1': M + 1, 'qhasharr_getnext.0': M + 2, 'qhasharr_put_by_obj': 2}, checks=checks, leak=leak, timeout=timeout, object_bits=10,
@@ -82,11 +83,18 @@ def step_cases(tier, prefix='c06', ops=('PUT', 'GET', 'REMOVE', 'REMOVE_IDX', 'W
                                 for vs in vsizes(M, tier):
                                     out.append(mk(prefix, L, op, {'VF_OPHOME': H, 'VF_KCLASS': kc, 'VF_VSZ': vs}, '.h%d.k%s.v%d' % (H, 'new' if kc < 0 else kc, vs), **kw))
                             elif op == 'GET' and kc >= 0:
-                                # get() allocates the value size: the final-block fill of that key is a per-query constant (1, 2, full)
-                                for fill, fs in ((1, 'f1'), (2, 'f2'), (255, 'ffull')):
-                                    fills = [0] * len(homes)
-                                    fills[kc] = fill
-                                    out.append(mk(prefix, L, op, {'VF_OPHOME': H, 'VF_KCLASS': kc, 'VF_FILLS': arr(fills)}, '.h%d.k%d.%s' % (H, kc, fs), **kw))
+                                # get() allocates the value size and copies from the matching slot: key lengths, the final-block fill of that key
+                                # and the first key byte (tag) are per-query constants so that the slot index is decided during symbolic execution
+                                for kl in (1, 2, 3):
+                                    for fill, fs in ((1, 'f1'), (2, 'f2'), (255, 'ffull')):
+                                        fills = [0] * len(homes)
+                                        fills[kc] = fill
+                                        out.append(mk(prefix, L, op, {'VF_OPHOME': H, 'VF_KCLASS': kc, 'VF_FILLS': arr(fills), 'VF_KLENS': arr([kl] * len(homes)), 'VF_KEYTAG': None},
+                                                      '.h%d.k%d.kl%d.%s' % (H, kc, kl, fs), **kw))
+                            elif op == 'GET':
+                                for (kl, okl) in ((1, 1), (2, 2), (3, 3), (3, 2), (2, 3)) if homes else ((1, 1), (1, 3)):
+                                    out.append(mk(prefix, L, op, {'VF_OPHOME': H, 'VF_KCLASS': kc, 'VF_KLENS': arr([kl] * max(1, len(homes))), 'VF_OPKLEN': okl, 'VF_KEYTAG': None,
+                                                                  'VF_FILLS': arr([1] * max(1, len(homes)))}, '.h%d.knew.kl%d.o%d' % (H, kl, okl), **kw))
                             else:
                                 out.append(mk(prefix, L, op, {'VF_OPHOME': H, 'VF_KCLASS': kc}, '.h%d.k%s' % (H, 'new' if kc < 0 else kc), **kw))
                 elif op == 'REMOVE_IDX':
@@ -96,7 +104,7 @@ def step_cases(tier, prefix='c06', ops=('PUT', 'GET', 'REMOVE', 'REMOVE_IDX', 'W
                     # getnext() allocates name and value copies: key lengths and final fills are per-query constants
                     for kl in (1, 2, 3):
                         for fill, fs in ((1, 'f1'), (255, 'ffull')):
-                            out.append(mk(prefix, L, op, {'VF_KLENS': arr([kl] * len(homes)), 'VF_FILLS': arr([fill] * len(homes))}, '.kl%d.%s' % (kl, fs), **kw))
+                            out.append(mk(prefix, L, op, {'VF_KLENS': arr([kl] * len(homes)), 'VF_FILLS': arr([fill] * len(homes)), 'VF_KEYTAG': None}, '.kl%d.%s' % (kl, fs), **kw))
                 else:
                     out.append(mk(prefix, L, op, {}, '', **kw))
     return out
